@@ -112,6 +112,30 @@ def _without_arguments(el):
     return el
 
 
+def waited_name_info(state, flow_state, pos):
+    """(name, with_args): `waited_name_at` and whether the name comes from the evaluation WITH the argument expressions"""
+    els = state.flow_configs[flow_state.flow_id].elements
+    if not (0 <= pos < len(els)):
+        return None, False
+    el = els[pos]
+    if not sm.is_match_op_element(el):
+        return None, False
+    saved = REC.uid
+    try:
+        with_args = True
+        try:
+            ev = sm.get_event_from_element(state, flow_state, el)
+        except Exception:  # noqa
+            with_args = False
+            ev = sm.get_event_from_element(state, flow_state, _without_arguments(el))
+        nm = getattr(ev, "name", None)
+        return (nm if isinstance(nm, str) else "!raise"), with_args
+    except Exception:  # noqa
+        return "!raise", False
+    finally:
+        REC.uid = saved
+
+
 def waited_name_at(state, flow_state, pos):
     """The event name the match element at `pos` waits for NOW, the way the DISPATCHER sees it: an incoming event is compared
     with `get_event_from_element(state, flow_state, element)` (`_compute_event_matching_score`), evaluated on the current
@@ -121,24 +145,7 @@ def waited_name_at(state, flow_state, pos):
     its argument expressions (an argument that cannot be evaluated makes the statement match nothing, but it still has a
     name); if that raises as well the element names NO event ('!raise'): a head must not stay parked there under any name.
     Side-effect free on the uid counter."""
-    els = state.flow_configs[flow_state.flow_id].elements
-    if not (0 <= pos < len(els)):
-        return None
-    el = els[pos]
-    if not sm.is_match_op_element(el):
-        return None
-    saved = REC.uid
-    try:
-        try:
-            ev = sm.get_event_from_element(state, flow_state, el)
-        except Exception:  # noqa
-            ev = sm.get_event_from_element(state, flow_state, _without_arguments(el))
-        nm = getattr(ev, "name", None)
-        return nm if isinstance(nm, str) else "!raise"
-    except Exception:  # noqa
-        return "!raise"
-    finally:
-        REC.uid = saved
+    return waited_name_info(state, flow_state, pos)[0]
 
 
 def obj_json(v, path):
@@ -393,10 +400,18 @@ def install():
         # start, or the name changed while the head waited)
         rec = None
         if REC.state is state:
-            nm = waited_name_at(state, flow_state, head.position)
+            nm, with_args = waited_name_info(state, flow_state, head.position)
             REC.regnames[(flow_state.uid, head.uid)] = [nm, head.position]
             REC.stmt_names.setdefault((flow_state.flow_id, head.position), set()).add(nm)
             rec = ref_registration(state, flow_state, head)
+            if rec is not None:
+                # the dispatcher's name at this moment, and whether the member arguments (evaluated) contain `arguments`
+                rec["dispatch"] = nm
+                try:
+                    ms = state.flow_configs[flow_state.flow_id].elements[head.position].spec.members
+                    rec["change_args"] = bool(with_args and ms and "arguments" in (ms[-1].arguments or {}))
+                except Exception:  # noqa
+                    rec["change_args"] = False
         if rec is None:
             return orig_add_head(state, flow_state, head)
         # a reference match: the referent as the name computation sees it, and what the interpreter did with it
